@@ -502,3 +502,145 @@ def inject_colors_arg_sets():
         lp._scenario = {"left": lk, "right": rk, "expect": expect}
         out.append({"self": lp})
     return out
+
+
+# =================================================================================================
+# ExpressionLowerer.lower_bundle_literal `{ e1, e2 }` (C02): nothing is lost and nothing invented.
+#   every element whose value is a compile-time constant signal literal goes, with THAT value under ITS signal, into ONE constant
+#   node; every other element (a computed signal, a nested bundle) is lowered and becomes a source of ONE wire merge, together with
+#   the constant node if there is one; a single computed element needs no merge (it is the bundle); the result's members are exactly
+#   the elements' signals (a nested bundle contributes all of its members) and it refers to the node that carries them all.
+# Literals of two elements, each a constant literal / a non-constant literal / a computed signal / a nested bundle (bounded), values symbolic.
+# =================================================================================================
+from pyvc.ghost import ghost as _ghost2  # noqa: E402
+
+ELQ2 = "dsl_compiler/src/lowering/expression_lowerer.py::ExpressionLowerer."
+BL = {}
+_NAMES = ("signal-A", "signal-B")
+_NESTED = {"signal-C", "signal-D"}
+
+
+def _bl_reset(a):
+    BL.clear()
+    return True
+
+
+def _bl_type(kinds):
+    def eff(ex, a):
+        i = [id(e) for e in ex.args_ns.expr.elements].index(id(a.expr))
+        kind = kinds[i]
+        if kind == "nested":
+            t = SObj(["BundleValue"], fresh_name("btype"), lazy=False)
+            t._fields["signal_types"] = set(_NESTED)
+            return t
+        t = SObj(["SignalValue"], fresh_name("stype"), lazy=False)
+        info = SObj(["SignalTypeInfo"], fresh_name("info"), lazy=False)
+        info._fields["name"] = _NAMES[i]
+        t._fields["signal_type"] = info
+        return t
+    return eff
+
+
+def _bl_const(kinds):
+    def eff(ex, a):
+        for i, e in enumerate(ex.args_ns.expr.elements):
+            if "SignalLiteral" not in e._cls_set:
+                continue
+            if e._fields.get("value") is a.expr or e.value is a.expr:
+                if kinds[i] == "const":
+                    v = z3.Int(f"literal_value_{i}")
+                    BL[("value", i)] = v
+                    return v
+                return None
+        return None
+    return eff
+
+
+def _bl_lower(kinds):
+    def eff(ex, a):
+        i = [id(e) for e in ex.args_ns.expr.elements].index(id(a.expr))
+        if kinds[i] == "nested":
+            r = SObj(["BundleRef"], fresh_name("nested_ref"), lazy=False)
+            r._fields.update({"signal_types": set(_NESTED), "source_id": z3.String(fresh_name("nested_id"))})
+        else:
+            r = SObj(["SignalRef"], fresh_name("elem_ref"), lazy=False)
+            r._fields.update({"signal_type": _NAMES[i], "source_id": z3.String(fresh_name("elem_id"))})
+        BL[("lowered", i)] = r
+        return r
+    return eff
+
+
+def _bl_bundle_const(ex, a):
+    BL["const_map"] = dict(a.signals)
+    r = SObj(["BundleRef"], fresh_name("const_bundle"), lazy=False)
+    r._fields.update({"signal_types": set(a.signals), "source_id": z3.String(fresh_name("const_id"))})
+    BL["const_ref"] = r
+    return r
+
+
+def _bl_merge(ex, a):
+    BL["merge_sources"] = list(a.sources)
+    BL["merge_type"] = a.output_type
+    r = SObj(["SignalRef"], fresh_name("merge_ref"), lazy=False)
+    r._fields.update({"signal_type": a.output_type, "source_id": z3.String(fresh_name("merge_id"))})
+    BL["merge_ref"] = r
+    return r
+
+
+def _bl_post(kinds):
+    def post(a, res):
+        consts = {_NAMES[i]: BL.get(("value", i)) for i, k in enumerate(kinds) if k == "const"}
+        computed = [BL.get(("lowered", i)) for i, k in enumerate(kinds) if k != "const"]
+        members = set()
+        for i, k in enumerate(kinds):
+            members |= _NESTED if k == "nested" else {_NAMES[i]}
+        if any(c is None for c in computed) or any(v is None for v in consts.values()):
+            return False
+        ok = ["BundleRef" in res._cls_set]
+        got_members = set(res.signal_types)
+        if consts:
+            ok.append(BL.get("const_map") is not None and set(BL["const_map"]) == set(consts) and all(BL["const_map"][k] is v for k, v in consts.items()))
+        else:
+            ok.append("const_map" not in BL)
+        if consts and not computed:
+            ok += [res is BL.get("const_ref"), "merge_sources" not in BL]
+        elif len(computed) == 1 and not consts:
+            ok += ["merge_sources" not in BL, res.source_id is computed[0].source_id, got_members == members]
+        else:
+            want_sources = ([BL.get("const_ref")] if consts else []) + computed
+            ms = BL.get("merge_sources")
+            ok += [ms is not None and len(ms) == len(want_sources) and all(x is y for x, y in zip(ms, want_sources)), BL.get("merge_type") == "bundle",
+                   BL.get("merge_ref") is not None and res.source_id is BL["merge_ref"].source_id, got_members == members]
+        return all(ok)
+    return post
+
+
+for _kinds in _it2c.product(("const", "literal", "computed", "nested"), repeat=2):
+    _elem_t = []
+    for _k in _kinds:
+        if _k in ("const", "literal"):
+            _elem_t.append(ty.TObj("SignalLiteral", only=("SignalLiteral",), ftypes=(("signal_type", ty.TConcrete("given")), ("value", ty.TObj("Expr", only=("NumberLiteral", "BinaryOp"))))))
+        elif _k == "computed":
+            _elem_t.append(ty.TObj("Expr", only=("IdentifierExpr", "BinaryOp")))
+        else:
+            _elem_t.append(ty.TObj("Expr", only=("IdentifierExpr", "BundleLiteral")))
+    CONTRACTS.append(Contract(
+        qualname=ELQ2 + "lower_bundle_literal",
+        params={"self": ty.TObj("ExpressionLowerer", only=("ExpressionLowerer",)), "expr": ty.TObj("BundleLiteral", only=("BundleLiteral",), ftypes=(("elements", ty.TTuple(tuple(_elem_t))),))},
+        requires=[("(reset capture)", _bl_reset)],
+        ensures=[("constant literals in one constant node with their values, every other element a source of one merge, members = the elements' signals", _bl_post(_kinds))],
+        uses={"opaque.get_expr_type": Contract(qualname="dsl_compiler/src/semantic/analyzer.py::SemanticAnalyzer.get_expr_type", params={"self": _OPQ, "expr": _OPQ},
+                                               effect=(lambda k: (lambda ex, a: _bl_type(k)(ex, type("NS", (), {"expr": a.args[0]})())))(_kinds), verify=False, note="type of the element"),
+              "ConstantFolder.extract_constant_int": Contract(qualname="dsl_compiler/src/lowering/constant_folder.py::ConstantFolder.extract_constant_int",
+                                                              params={"cls": _OPQ, "expr": _OPQ, "diagnostics": _OPQ, "symbol_resolver": _OPQ}, defaults={"diagnostics": None, "symbol_resolver": None},
+                                                              effect=_bl_const(_kinds), verify=False, note="verified separately (contracts.c11): the S3 constant value, or None"),
+              "ExpressionLowerer.lower_expr": Contract(qualname=ELQ2 + "lower_expr", params={"self": _OPQ, "expr": _OPQ}, effect=_bl_lower(_kinds), verify=False,
+                                                       note="the lowered element (a signal or bundle reference)"),
+              "IRBuilder.bundle_const": Contract(qualname=IRB + "bundle_const", params={"self": _OPQ, "signals": _OPQ, "source_ast": _OPQ}, defaults={"source_ast": None},
+                                                 effect=_bl_bundle_const, verify=False, note="proved above: one constant node over a copy of the map"),
+              "IRBuilder.wire_merge": Contract(qualname=IRB + "wire_merge", params={"self": _OPQ, "sources": _OPQ, "output_type": _OPQ, "source_ast": _OPQ}, defaults={"source_ast": None},
+                                               effect=_bl_merge, verify=False, note="proved above: one merge node over the sources in order"),
+              "ExpressionLowerer.semantic": "inline", "ExpressionLowerer.ir_builder": "inline", "ExpressionLowerer.diagnostics": "inline"},
+        dynamic_types={"self": {"parent": ty.TObj("ASTLowerer", only=("ASTLowerer",))},
+                       "self.parent": {"semantic": ty.TOpaque("semantic"), "ir_builder": ty.TObj("IRBuilder", only=("IRBuilder",)), "diagnostics": ty.TOpaque("diag")}},
+        properties=("C02",), min_obligations=1, no_replay=True, note=f"elements: {_kinds[0]}, {_kinds[1]}"))
